@@ -74,6 +74,7 @@ class Session:
         os.write(fd, spec.encode())
         os.close(fd)
         self.obs_r, obs_w = os.pipe()
+        ctl_r, self.ctl_w = os.pipe()
         self.master, slave = os.openpty()
         fcntl.ioctl(slave, termios.TIOCSWINSZ, struct.pack("HHHH", rows, cols, 0, 0))
         if raw_initial:
@@ -90,8 +91,9 @@ class Session:
                 os.dup2(slave, 1)
                 os.dup2(slave, 2)
                 os.dup2(obs_w, 3)
-                for f in (self.master, slave, obs_w, self.obs_r):
-                    if f > 3:
+                os.dup2(ctl_r, 4)
+                for f in (self.master, slave, obs_w, self.obs_r, ctl_r, self.ctl_w):
+                    if f > 4:
                         try:
                             os.close(f)
                         except OSError:
@@ -105,6 +107,7 @@ class Session:
         self.pid = pid
         self.slave = slave        # kept open: the terminal stays "connected" after the child exits
         os.close(obs_w)
+        os.close(ctl_r)
         os.set_blocking(self.master, False)
         os.set_blocking(self.obs_r, False)
         self.alive = True
@@ -211,6 +214,24 @@ class Session:
             n += 1
         return st
 
+    def tell_printer(self, thread, text_hex, wait=True):
+        """have printer thread `thread` print the text; wait until it reports the print done and the child is quiet"""
+        n0 = sum(1 for l in self.obs if l.startswith("P "))
+        os.write(self.ctl_w, ("%d %s\n" % (thread, text_hex)).encode())
+        if not wait:
+            return "sent"
+        t0 = time.time()
+        while time.time() - t0 < self.timeout:
+            self._drain()
+            if sum(1 for l in self.obs if l.startswith("P ")) > n0:
+                break
+            if self._exited():
+                return "exited"
+            time.sleep(0.0005)
+        st = self.wait_quiet()
+        self.rebase()
+        return st
+
     def rebase(self):
         """after something made the child read from a descriptor other than the terminal (signal pipe,
         message pipe): count terminal bytes from here again"""
@@ -275,7 +296,7 @@ class Session:
         for line in self._obsbuf.split(b"\n"):
             if line:
                 self.obs.append(line.decode())
-        for f in (self.obs_r, self.slave):
+        for f in (self.obs_r, self.slave, self.ctl_w):
             try:
                 os.close(f)
             except OSError:
@@ -333,6 +354,10 @@ def run_case(exe, spec, chunks, cols=80, rows=24, raw_initial=False, probe=None,
                 statuses.append(s.resize(ev[1], rows))
             elif ev[0] == "tstp":
                 statuses.append(s.stop_and_continue())
+            elif ev[0] == "print":
+                statuses.append(s.tell_printer(ev[1], ev[2], wait=True))
+            elif ev[0] == "print_nowait":
+                statuses.append(s.tell_printer(ev[1], ev[2], wait=False))
         marks.append(len(s.out))
         obs_marks.append(len(s.obs))
         if probe:
